@@ -195,6 +195,11 @@ def build_file(unit, units_by_id, prelude_text, types_text, machine_text, out_pa
     fn = extract_fn(unit)
     parts = []
     pl = prelude_text.replace("\n//@TYPES\n", "\n" + types_text + "\n").replace("\n//@MACHINE\n", "\n" + machine_text + "\n")
+    for region in unit.get("omit", []):
+        # the prelude's assumed contract of the very function this unit proves is left out
+        pl, n = re.subn(r"//@BEGIN %s\n.*?//@END %s\n" % (region, region), "", pl, flags=re.S)
+        if n != 1:
+            raise ExtractError(f"{unit['id']}: prelude region {region} not found")
     # the prelude ends the verus! block itself; we insert our items before its end marker
     marker = "} // verus!"
     idx = pl.rfind(marker)
